@@ -36,6 +36,9 @@ def handle (op : String) (toks : List String) : String :=
       | none => "decode-error"
     | _ => "decode-error"
   | "engine" => Driver.handleEngine toks
+  | "rename" => Driver.handleRename toks
+  | "mklist" => Driver.handleMkList false toks
+  | "mkproper" => Driver.handleMkList true toks
   | "show" =>
     match decTerm toks with
     | some (t, _) => "ok A:" ++ hex (Term.show Native.showF64 t)
